@@ -47,6 +47,6 @@ def run(tier, t0, only=None):
         assumptions=["the parser reads the clock only through ctparse.timers.perf_counter", "CrossHair's NoTracing/ResumedTracing leave untraced code to plain CPython"],
         explanation="For each text the deadline is made to fall at clock read k with k symbolic; CrossHair covers every k (one concrete run of the real parser per path): never raises, "
                     "yields a prefix of the run without timeout, ctparse() returns the best of that prefix or an empty result, no clock-checked step starts after the first late read, "
-                    "and the work between two consecutive reads stays within a bound linear in the number of tokens (2n+2 rule calls, 3n+2 scorings) although the number of candidate "
+                    "between two deadline checks at most one candidate sequence is analysed or one partial parse expanded, and the work between two consecutive clock reads stays within a bound linear in the number of tokens (n+2 rule calls, 2n+1 scorings) although the number of candidate "
                     "sequences is 3^n. timers.timeout: raises iff now-start > timeout, never for 0.",
         outside=["real clocks", "texts other than the listed ones", "scorers other than the constant one in this harness"])
